@@ -10,6 +10,8 @@ import (
 	"verif/harness/ref"
 
 	"github.com/cuteLittleDevil/go-jt808/attachment"
+	"github.com/cuteLittleDevil/go-jt808/protocol/jt808"
+	"github.com/cuteLittleDevil/go-jt808/protocol/model"
 	"pgregory.net/rapid"
 )
 
@@ -19,6 +21,9 @@ import (
 func genName(t *rapid.T, label string, maxLen int, used map[string]bool) []byte {
 	for {
 		n := rapid.IntRange(1, maxLen).Draw(t, label+"_n")
+		if maxLen > 50 && rapid.Bool().Draw(t, label+"_longest") { // one-byte length field: the last values it can hold
+			n = rapid.IntRange(maxLen-16, maxLen).Draw(t, label+"_nl")
+		}
 		b := make([]byte, n)
 		switch rapid.IntRange(0, 3).Draw(t, label+"_style") {
 		case 0: // friendly
@@ -83,7 +88,11 @@ func genUpload(t *rapid.T, withGaps bool) upScript {
 	used := map[string]bool{}
 	var perFile [][]chunkRef
 	for i := 0; i < nf; i++ {
-		f := upFile{Name: genName(t, "name", 50, used), Seed: rapid.Byte().Draw(t, "seed")}
+		maxName := 50
+		if s.Dialect == 2 && i == 0 && rapid.IntRange(0, 2).Draw(t, "long_name") == 0 {
+			maxName = 255 // the HLJ chunk header carries a length-prefixed name (the others a fixed 50-byte field)
+		}
+		f := upFile{Name: genName(t, "name", maxName, used), Seed: rapid.Byte().Draw(t, "seed")}
 		cs := rapid.SampledFrom([]int{1, 3, 7, 16, 64, 500, 1024, 4096, 65536}).Draw(t, "chunk")
 		switch rapid.IntRange(0, 4).Draw(t, "sizek") {
 		case 0:
@@ -251,7 +260,7 @@ func judgeUpload(s upScript, r upResult, mode string) (labels []string, nt bool,
 	}
 	ri := 0
 	markerMeta := bytes.Contains(s.TerminalID, []byte("01cd")) || bytes.Contains(s.AlarmID, []byte("01cd"))
-	dups, gapsSeen, outOfOrder, multiGap := false, false, false, false
+	dups, gapsSeen, outOfOrder, multiGap, manyRanges := false, false, false, false, false
 	reannounced := false
 	lastOff := map[int]int{}
 	seenChunk := map[[3]int]bool{}
@@ -380,6 +389,21 @@ func judgeUpload(s upScript, r upResult, mode string) (labels []string, nt bool,
 				if result != wantResult || fmt.Sprint(got) != fmt.Sprint(miss) {
 					return nil, false, fmt.Errorf("0x9212 for file %q (%d bytes) after item %d: result=%d ranges=%v, want result=%d ranges=%v", f.Name, f.Size, k, result, got, wantResult, miss)
 				}
+				// the report is for a terminal to act on: the library's own 0x9212 parser must read it the same way
+				var rp model.P0x9212
+				if err := rp.Parse(&jt808.JTMessage{Header: &jt808.Header{ID: 0x9212}, Body: append([]byte(nil), b...)}); err != nil {
+					return nil, false, fmt.Errorf("0x9212 for file %q with %d ranges is rejected by P0x9212.Parse: %v", f.Name, count, err)
+				}
+				var parsed []ref.Range
+				for _, x := range rp.P0x9212RetransmitPacketList {
+					parsed = append(parsed, ref.Range{Off: x.DataOffset, Len: x.DataLength})
+				}
+				if rp.UploadResult != wantResult || fmt.Sprint(parsed) != fmt.Sprint(miss) {
+					return nil, false, fmt.Errorf("0x9212 for file %q: P0x9212.Parse reads result=%d ranges=%v, want result=%d ranges=%v", f.Name, rp.UploadResult, parsed, wantResult, miss)
+				}
+				if count >= 32 {
+					manyRanges = true
+				}
 				if mode == "C16" && e.Stage != wantStage {
 					return nil, false, fmt.Errorf("item %d (0x1212): stage %q but %d ranges are missing", k, e.Stage.String(), len(miss))
 				}
@@ -417,6 +441,8 @@ func judgeUpload(s upScript, r upResult, mode string) (labels []string, nt bool,
 	lab(outOfOrder, "chunks_out_of_order")
 	lab(len(s.Files) >= 2, "files>=2")
 	lab(reannounced, "announced_twice")
+	lab(manyRanges, "ranges>=32")
+	lab(len(s.Files) > 0 && len(s.Files[0].Name) > 200, "name_longer_than_200_bytes")
 	nChunks := 0
 	for _, it := range s.Items {
 		if it.Kind == "chunk" {
